@@ -3,7 +3,7 @@ from pyvc.contracts import cls, fn
 
 U = "hypercorn.utils:"
 
-fn(U + "suppress_body", params={"method": "str", "status_code": "int"}, returns="bool", modifies=[], effect="atomic",
+fn(U + "suppress_body", params={"method": "str", "status_code": "int"}, returns="bool", modifies=[], effect="atomic", inline=True,
    ensures=[("C02.suppress", "result == (method == 'HEAD' or (100 <= status_code and status_code < 200) or status_code == 204 or status_code == 304)", "C02")],
    props=("C02",))
 
